@@ -9,6 +9,14 @@ from .ops import _fn
 MAX_DEPTH = 12
 
 
+class SymKey(str):
+    """a keyword-argument name that is a symbolic string (only ever handed to havocked callees)"""
+    def __new__(cls, label, term):
+        o = super().__new__(cls, label)
+        o.term = term
+        return o
+
+
 class VCallbackFn(VCallback):
     __slots__ = ("recv",)
 
@@ -63,8 +71,12 @@ class CallMixin:
                 r = self.run.rec(d.oid) if isinstance(d, VRef) and d.kind == "dict" else None
                 if r is None or not r.concrete:
                     return self.call_star_kwargs(fn, args, kwargs, d, node, frame)
-                for key, (k, v) in r.items.items():
+                for i_, (key, (k, v)) in enumerate(r.items.items()):
                     if key[0] != "s":
+                        k = self.force(k)
+                        if isinstance(k, VStr) and self.is_havocked_callee(fn):
+                            kwargs[SymKey(f"**k{i_}", k.t)] = v       # a keyword whose NAME is symbolic, passed to a havocked callee
+                            continue
                         raise E.Unsupported("** with non-str key")
                     kwargs[key[1]] = v
             else:
@@ -414,7 +426,9 @@ class CallMixin:
             for pat, clauses in self.contract.callsite_pre.items():
                 if cb.name.endswith(pat):
                     for lbl, ex in clauses.items():
-                        f = self.inv_frame(frame, {"args": VTuple(args), "arg0": args[0] if args else NONE})
+                        f = self.inv_frame(frame, {"args": VTuple(args), "arg0": args[0] if args else NONE,
+                                                   "kwargs": self.new_dict([(VStr(k_.term) if isinstance(k_, SymKey) else VStr(k_), v_)
+                                                                              for k_, v_ in kwargs.items() if isinstance(k_, str)])})
                         root = getattr(self, "root_frame", None)
                         if root is not None and root is not frame:
                             for k_, v_ in self.visible_locals(root).items():
